@@ -9,7 +9,9 @@ def regen(ctx):
     f = "app/daemon/daemon.go:OrderedDaemon."
     return checklib.regen_skeletons(ctx, [f + m for m in (
         "BackgroundWorker", "runBackgroundWorker", "Start", "Run", "shutdown",
-        "stopWorkers", "getWorkersAndShutdownOrder", "cleanupWorker", "clear", "Shutdown", "ShutdownAndWait")],
+        "stopWorkers", "getWorkersAndShutdownOrder", "cleanupWorker", "clear", "Shutdown", "ShutdownAndWait",
+        "GetRunningBackgroundWorkers", "IsStopped", "IsRunning", "ContextStopped")]
+        + ["app/daemon/daemon.go:type=OrderedDaemon", "app/daemon/daemon.go:type=worker"],
         extra_methods=["IsStopped", "IsRunning", "ctxCancel", "stoppedCtxCancel", "Slice", "backgroundWorker"])
 
 
@@ -24,7 +26,10 @@ SPEC = {
                  "C20_no_add_after_shutdown", "C20_running_name_refused", "C20_run_returns_after_all",
                  "C20_statement", "C20_old_run_wait_witness", "C20_old_bw_window_witness",
                  "C20_skeleton_BackgroundWorker", "C20_skeleton_runBackgroundWorker", "C20_skeleton_Start", "C20_skeleton_Run",
-                 "C20_skeleton_shutdown", "C20_skeleton_stopWorkers", "C20_skeleton_cleanupWorker"],
+                 "C20_skeleton_shutdown", "C20_skeleton_stopWorkers", "C20_skeleton_cleanupWorker",
+                 "C20_shutdown_progress", "C20_run_progress", "C20_shutdown_not_stuck",
+                 "C20_skeleton_GetRunningBackgroundWorkers", "C20_skeleton_IsStopped", "C20_skeleton_IsRunning",
+                 "C20_skeleton_ContextStopped", "C20_skeleton_type_OrderedDaemon", "C20_skeleton_type_worker"],
     "trusted_base": [
         "hand-written protocol model Hive/Model/Daemon.lean of app/daemon/daemon.go (critical sections of d.lock atomic; "
         "lock-free reads as separate steps), tied by (a) differential execution of sequential histories against the model "
